@@ -49,12 +49,22 @@ fn replay_e1(prop: &str, d: &Value) -> i32 {
     let root_epoch = w.nodes[&vec![]].core.epoch;
     for _round in 0..(w.pool.len() + 2) {
         let k0 = c.key(&pool_ids, &wids).to_string();
+        if c.group_obs(&w.gid).map(|g| g.pending_commit).unwrap_or(false) && !trace.is_empty() {
+            // an unpublished auto-commit is eventually dropped (see DESIGN 2.3); own published commits stay
+            let authored = w.pool.iter().any(|p| p.author == member && p.kind == EvKind::Commit);
+            if !authored {
+                let out = step(&w, &c, Action::ClearPending);
+                println!("    settle: clear_pending -> {}", out.result);
+                c = out.client;
+            }
+        }
         for &i in &w.settle_order {
             let ep = c.group_obs(&w.gid).and_then(|g| g.mls.map(|m| m.epoch)).unwrap_or(0);
             if regime == Regime::Causal && (w.pool[i].node.len() as u64) > ep.saturating_sub(root_epoch) {
                 continue;
             }
             let out = step(&w, &c, Action::Deliver(i));
+            println!("    settle: {} -> {}", Action::Deliver(i).label(&w), out.result);
             c = out.client;
         }
         if c.key(&pool_ids, &wids).to_string() == k0 {
